@@ -145,6 +145,38 @@ fn defs(list: &[String]) -> String {
     format!("ok {}", json!([names, n]))
 }
 
+/// definitions with the given names and `T = oneOf[$ref each]`: the variant identifiers of the untagged enum `T` come from the
+/// definition names (`untagged_enum`: schema_is_named, common prefix cut off), not from anything on the wire
+fn refunion(list: &[String]) -> String {
+    let mut defs: Vec<(String, Schema)> = Vec::new();
+    for (i, k) in list.iter().enumerate() {
+        let s = json!({"type": "object", "properties": {format!("v{}", i): {"type": "string"}}, "required": [format!("v{}", i)]});
+        defs.push((k.clone(), serde_json::from_value(s).unwrap()));
+    }
+    let refs = list
+        .iter()
+        .map(|k| json!({"$ref": format!("#/definitions/{}", k)}))
+        .collect::<Vec<_>>();
+    defs.push(("T".to_string(), serde_json::from_value(json!({"oneOf": refs})).unwrap()));
+    let mut ts = TypeSpace::default();
+    if let Err(e) = ts.add_ref_types(defs) {
+        return format!("err {}", tvh::err_kind(&e));
+    }
+    let file = match emitted_file(&ts) {
+        Ok(f) => f,
+        Err(e) => return format!("bad {}", json!(e)),
+    };
+    for item in &file.items {
+        if let syn::Item::Enum(e) = item {
+            if e.ident == "T" {
+                let out = e.variants.iter().map(|v| json!(v.ident.to_string())).collect::<Vec<_>>();
+                return format!("ok {}", Value::Array(out));
+            }
+        }
+    }
+    "bad \"enum T not emitted\"".to_string()
+}
+
 fn isident(s: &str) -> bool {
     match syn::parse_str::<syn::Ident>(s) {
         Ok(id) => id.to_string() == s && !s.starts_with("r#"),
@@ -216,6 +248,7 @@ fn handle(line: &str) -> String {
         "props" => list().map(|l| props(&l, false)),
         "propsx" => list().map(|l| props(&l, true)),
         "defs" => list().map(|l| defs(&l)),
+        "refunion" => list().map(|l| refunion(&l)),
         _ => None,
     }
     .unwrap_or_else(|| "unsupported".to_string())
